@@ -1,4 +1,4 @@
-(** Decoding of an in-range key of a design of fragment F0 in closed form.
+(** Decoding of an in-range key of a design of fragment F1 in closed form.
     Proof file. *)
 From Coq Require Import ZArith List Bool Arith Lia.
 From SP Require Import Design.Flat Design.Layout Comb.CombModel Comb.CombSpec Random.Enum Random.Frag
@@ -34,6 +34,9 @@ Proof.
   cbn [enumerate_from length seq map combine]. f_equal; [f_equal; lia|].
   rewrite IH. f_equal. rewrite <- seq_shift, map_map. apply map_ext. intros k. lia.
 Qed.
+
+Lemma zindex_nth_ok (l : list nat) d : (0 <= d < Z.of_nat (length l))%Z -> zindex l d = ROk (nth (Z.to_nat d) l 0).
+Proof. intros H. apply zindex_some; [lia|]. apply nth_error_nth'. lia. Qed.
 
 Lemma zindex_seq nl d : (0 <= d < Z.of_nat nl)%Z -> zindex (seq 0 nl) d = ROk (Z.to_nat d).
 Proof.
@@ -101,7 +104,7 @@ Qed.
 
 Section F0D.
 Variable fb : flat.
-Hypothesis HF : frag0 fb = true.
+Hypothesis HF : frag1 fb = true.
 Hypothesis Hq : 0 < f0_q fb.
 
 Local Notation c := (the_crossing fb).
@@ -145,11 +148,14 @@ Definition comp_ok (tc : nat) (cp : comp) : Prop :=
   let '(c0, c1, c2) := cp in
   (0 <= c0 < f0_perms fb tc)%Z /\
   c1 = zeros (if tc =? q then q else tc) /\
-  Forall2 (fun f idx => (0 <= idx < Z.of_nat (nlevels fb f) ^ Z.of_nat tc)%Z) ubi c2.
+  Forall2 (fun f idx => (0 <= idx < Z.of_nat (length (f0_L fb f)) ^ Z.of_nat tc)%Z) ubi c2.
+
+(** level number [d] (an index into the admitted levels) of factor [g] *)
+Definition lv_of (g : nat) (d : Z) : nat := nth (Z.to_nat d) (f0_L fb g) 0.
 
 (** the independent rows of a round *)
 Definition ind_rows (tc : nat) (c2 : list Z) : list (nat * list nat) :=
-  map (fun fi => (fst fi, map Z.to_nat (combo_of tc (nlevels fb (fst fi)) (snd fi)))) (combine ubi c2).
+  map (fun fi => (fst fi, map (lv_of (fst fi)) (combo_of tc (length (f0_L fb (fst fi))) (snd fi)))) (combine ubi c2).
 
 Definition spec_tv (perm : list Z) (rows : list (nat * list nat)) (t : nat) : asg :=
   nth (Z.to_nat (nth t perm 0%Z)) inst [] ++ map (fun fr => (fst fr, nth t (snd fr) 0)) rows.
@@ -221,10 +227,10 @@ Proof.
                           row <-- rmap (fun i => d <-- zindex combo (Z.of_nat i) ;;; zindex levels d)
                                        (seq 0 tc) ;;;
                           ROk (fi, row))
-                       (enumerate_from 0 (map (fun f => (f, all_levels fb f)) ubi)) = ROk (ind_rows tc c2)).
+                       (enumerate_from 0 (map (fun f => (f, f0_L fb f)) ubi)) = ROk (ind_rows tc c2)).
   { pose proof (Forall2_length' _ _ _ Hc2) as Hlen.
     assert (G : forall (us : list nat) (cs : list Z),
-               Forall2 (fun f idx => (0 <= idx < Z.of_nat (nlevels fb f) ^ Z.of_nat tc)%Z) us cs ->
+               Forall2 (fun f idx => (0 <= idx < Z.of_nat (length (f0_L fb f)) ^ Z.of_nat tc)%Z) us cs ->
                forall j0 : Z, (0 <= j0)%Z -> (forall k, k < length cs -> nth_error c2 (Z.to_nat j0 + k) = nth_error cs k) ->
                rmap (fun jf : Z * (nat * list nat) => let '(j, (fi, levels)) := jf in
                           idx <-- zindex c2 j ;;;
@@ -232,24 +238,21 @@ Proof.
                           row <-- rmap (fun i => d <-- zindex combo (Z.of_nat i) ;;; zindex levels d)
                                        (seq 0 tc) ;;;
                           ROk (fi, row))
-                    (enumerate_from j0 (map (fun f => (f, all_levels fb f)) us)) =
-               ROk (map (fun fi => (fst fi, map Z.to_nat (combo_of tc (nlevels fb (fst fi)) (snd fi)))) (combine us cs))).
+                    (enumerate_from j0 (map (fun f => (f, f0_L fb f)) us)) =
+               ROk (map (fun fi => (fst fi, map (lv_of (fst fi)) (combo_of tc (length (f0_L fb (fst fi))) (snd fi)))) (combine us cs))).
     { induction 1 as [|f idx us' cs' Hidx Hrest IH]; intros j0 Hj0 Hnth; [reflexivity|].
       cbn [map enumerate_from rmap combine fst snd].
       assert (Hz : zindex c2 j0 = ROk idx).
       { apply zindex_some; [lia|]. specialize (Hnth 0 ltac:(cbn; lia)). rewrite Nat.add_0_r in Hnth. exact Hnth. }
-      rewrite Hz. cbn [rbind]. unfold all_levels at 1. rewrite seq_length.
-      destruct (combo_of_spec tc (nlevels fb f) idx Hidx) as (Hc & Hcl & Hcd & _).
+      rewrite Hz. cbn [rbind].
+      destruct (combo_of_spec tc (length (f0_L fb f)) idx Hidx) as (Hc & Hcl & Hcd & _).
       rewrite Hc. cbn [lift rbind].
-      assert (Hrow : rmap (fun i => d <-- zindex (combo_of tc (nlevels fb f) idx) (Z.of_nat i) ;;; zindex (all_levels fb f) d)
-                          (seq 0 tc) = ROk (map Z.to_nat (combo_of tc (nlevels fb f) idx))).
-      { assert (Hm : map Z.to_nat (combo_of tc (nlevels fb f) idx) =
-                     map (fun i => Z.to_nat (nth i (combo_of tc (nlevels fb f) idx) 0%Z)) (seq 0 tc)).
-        { rewrite <- Hcl at 2. rewrite <- (map_map (fun i => nth i _ 0%Z) Z.to_nat).
-          f_equal. symmetry. apply map_nth_seq. }
-        rewrite Hm. apply rmap_ok_map. intros i Hi. apply in_seq in Hi.
+      assert (Hrow : rmap (fun i => d <-- zindex (combo_of tc (length (f0_L fb f)) idx) (Z.of_nat i) ;;; zindex (f0_L fb f) d)
+                          (seq 0 tc) = ROk (map (lv_of f) (combo_of tc (length (f0_L fb f)) idx))).
+      { rewrite (map_via_seq (lv_of f) (combo_of tc (length (f0_L fb f)) idx) 0%Z), Hcl.
+        apply rmap_ok_map. intros i Hi. apply in_seq in Hi.
         rewrite zindex_nat. rewrite nth_error_nth_ok with (d := 0%Z) by lia. cbn [of_opt rbind].
-        apply zindex_seq. apply Forall_nth'; [exact Hcd | lia]. }
+        apply zindex_nth_ok. apply Forall_nth'; [exact Hcd | lia]. }
       rewrite Hrow. cbn [rbind].
       rewrite (IH (j0 + 1)%Z) by (try lia; intros k Hk; specialize (Hnth (S k) ltac:(cbn; lia)); cbn in Hnth;
                                   rewrite <- Hnth; f_equal; lia).
@@ -269,7 +272,7 @@ Qed.
 
 
 (** * The factors: crossed ones and independent ones *)
-Local Notation prod := (product (map (all_levels fb) c)).
+Local Notation prod := (f0_cprod fb).
 Local Notation K := (c ++ ubi).
 
 Lemma inst_eq : inst = map (fun ls => combine c ls) prod.
@@ -285,7 +288,7 @@ Qed.
 Lemma prod_elem_length j : j < q -> length (nth j prod []) = length c.
 Proof.
   intros Hj. rewrite (product_length_elem (map (all_levels fb) c)); [apply map_length|].
-  apply nth_In. exact Hj.
+  apply (f0_cprod_in_prod fb HF). apply nth_In. exact Hj.
 Qed.
 
 Lemma ubi_In g : In g ubi <-> g < n /\ ~ In g c.
@@ -354,7 +357,7 @@ Qed.
 
 
 Definition ind_level (tc : nat) (c2 : list Z) (j t : nat) : nat :=
-  Z.to_nat (nth t (combo_of tc (nlevels fb (nth j ubi 0)) (nth j c2 0%Z)) 0%Z).
+  lv_of (nth j ubi 0) (nth t (combo_of tc (length (f0_L fb (nth j ubi 0))) (nth j c2 0%Z)) 0%Z).
 
 Lemma alookup_spec_tv_ind tc cp t j g : tc <= q -> comp_ok tc cp -> t < tc ->
   nth_error ubi j = Some g ->
@@ -372,7 +375,7 @@ Proof.
   rewrite alookup_combine_none by exact Hgc. rewrite alookup_rows.
   assert (Hjl : j < length ubi) by (apply nth_error_Some; congruence).
   assert (Hrow : nth_error (ind_rows tc c2) j =
-                 Some (g, map Z.to_nat (combo_of tc (nlevels fb g) (nth j c2 0%Z)))).
+                 Some (g, map (lv_of g) (combo_of tc (length (f0_L fb g)) (nth j c2 0%Z)))).
   { unfold ind_rows. rewrite nth_error_map.
     assert (Hc : nth_error (combine ubi c2) j = Some (g, nth j c2 0%Z)).
     { rewrite nth_error_nth_ok with (d := (0, 0%Z)) by (rewrite combine_length; lia).
@@ -381,9 +384,11 @@ Proof.
   pose proof (find_by_key (ind_rows tc c2) j _ ltac:(rewrite ind_rows_keys by lia; apply ubi_nodup) Hrow) as Hf.
   cbn [fst] in Hf. rewrite Hf. cbn [snd]. unfold ind_level.
   rewrite (nth_error_nth _ _ 0 Hj). f_equal.
-  destruct (Nat.lt_ge_cases t (length (combo_of tc (nlevels fb g) (nth j c2 0%Z)))) as [Hlt | Hge].
-  - rewrite nth_indep with (d' := Z.to_nat 0%Z) by (rewrite map_length; exact Hlt). apply map_nth.
-  - rewrite nth_overflow by (rewrite map_length; exact Hge). rewrite nth_overflow by exact Hge. reflexivity.
+  pose proof (Forall2_nth _ _ _ 0 0%Z j Hc2 Hjl) as Hidx. cbv beta in Hidx. rewrite (nth_error_nth _ _ 0 Hj) in Hidx.
+  destruct (combo_of_spec tc _ _ Hidx) as (_ & Hcl & _).
+  rewrite (nth_indep (map (lv_of g) (combo_of tc (length (f0_L fb g)) (nth j c2 0%Z))) 0 (lv_of g 0%Z))
+    by (rewrite map_length, Hcl; exact Ht).
+  apply (map_nth (lv_of g)).
 Qed.
 
 (** * Rows of a round *)
